@@ -5,11 +5,15 @@ import random
 BOOL_LEAVES = ["a", "b", "c", "d"]
 INT_LEAVES = ["i", "j"]
 ALT_NAMES = [
-    {},                                                                  # a b c d i j
-    {"a": "p", "b": "q", "c": "x", "d": "y", "i": "m", "j": "n"},
-    {"a": "k9", "b": "k1", "c": "zeta", "d": "alpha", "i": "u", "j": "t"},
+    {},                                                                  # a b c d i j ; compounds A B C ... (compounds sort before leaves)
+    # leaves AND explicit compound ids renamed, so that atoms and compounds interleave in id order (children are kept sorted by id)
+    dict({"a": "p", "b": "q", "c": "x", "d": "y", "i": "m", "j": "n"},
+         **{"A": "r", "B": "o", "C": "w", "D": "l", "E": "z", "F": "k", "G": "s", "H": "v", "K": "u", "L": "t", "M": "h", "N": "g", "S": "pp"}),
+    dict({"a": "k9", "b": "k1", "c": "zeta", "d": "alpha", "i": "u", "j": "t"},
+         **{"A": "m", "B": "a", "C": "zz", "D": "k5", "E": "b", "F": "tt", "G": "c", "H": "k0", "K": "v", "L": "al", "M": "ze", "N": "y", "S": "k3"}),
     {"a": "w", "b": "v", "c": "e", "d": "f", "i": "g", "j": "h"},
-    {"a": "item-1", "b": "Item_2", "c": "3", "d": "é", "i": "qty", "j": "n2"},
+    dict({"a": "item-1", "b": "Item_2", "c": "3", "d": "é", "i": "qty", "j": "n2"},
+         **{"A": "Z", "B": "j", "C": "4", "D": "ö", "E": "Item_1", "F": "item-0", "G": "2", "H": "q", "K": "r", "L": "a", "M": "0", "N": "é2", "S": "m"}),
 ]
 
 
@@ -40,6 +44,13 @@ def rename(spec, mapping):
         if n["t"] == "var":
             n["id"] = mapping.get(n["id"], n["id"])
             for k in ("lo", "hi"):
+                if isinstance(n.get(k), str) and n[k].startswith("$"):
+                    pre, _, nm = n[k][1:].partition("_")
+                    n[k] = "$%s_%s" % (pre, mapping.get(nm, nm))
+        else:
+            if n.get("id"):
+                n["id"] = mapping.get(n["id"], n["id"])
+            for k in ("value", "sign"):
                 if isinstance(n.get(k), str) and n[k].startswith("$"):
                     pre, _, nm = n[k][1:].partition("_")
                     n[k] = "$%s_%s" % (pre, mapping.get(nm, nm))
